@@ -337,6 +337,21 @@ def _add(module: Module, val: ModuleAttr) -> ModuleAttr:
         # Nonetheless gotta raise an error if we get here, somehow.
         _attr_type_error(val)
 
+    # If the name is being re-used, remove its prior holder from its own type-specific container
+    old = module.namespace.get(val.name, None)
+    if old is not None and old is not val:
+        for ctr in (
+            module.ports,
+            module.signals,
+            module.instances,
+            module.instarrays,
+            module.instbundles,
+            module.bundles,
+        ):
+            if ctr.get(val.name, None) is old:
+                ctr.pop(val.name)
+        old._parent_module = None
+
     # Add it to the module namespace, and the type-specific container
     type_ctr[val.name] = val
     module.namespace[val.name] = val
